@@ -286,6 +286,24 @@ main(void)
 			free(out);
 			free(salt);
 			free(key);
+		} else if (hc_is("pbkdf2sum", 4)) {
+			/* long outputs (block index beyond 2^16): only a summary is printed */
+			uint64_t h = 0xcbf29ce484222325ULL;
+			size_t i;
+
+			key = hc_unhex(hc_tok[1], &klen);
+			salt = hc_unhex(hc_tok[2], &slen);
+			c = strtoull(hc_tok[3], NULL, 10);
+			dk = (size_t)strtoull(hc_tok[4], NULL, 10);
+			out = malloc(dk ? dk : 1);
+			PBKDF2_SHA256(key, klen, salt, slen, (uint64_t)c, out, dk);
+			for (i = 0; i < dk; i++) { h ^= out[i]; h *= 0x100000001b3ULL; }
+			printf("len=%zu fnv=%016llx tail=", dk, (unsigned long long)h);
+			hc_puthex(out + (dk > 64 ? dk - 64 : 0), dk > 64 ? 64 : dk);
+			printf(" | same");
+			free(out);
+			free(salt);
+			free(key);
 		} else if (hc_is("crc", 2)) {
 			uint8_t cbuf[4];
 			CRC32C_CTX cc;
